@@ -20,7 +20,8 @@ RULE = ('Hypothesis RuleBasedStateMachine: @initialize draws a document (profile
         'constant BEKERN_CATEGORIES itself -, six encodings, legal and illegal measure ranges), Exporter.export_string '
         'with a caller-owned ExportOptions object reused across calls, get_all_tokens / get_unique_tokens / '
         'get_all_tokens_encodings / get_unique_token_encodings / frequencies with filters, get_metacomments (key, '
-        'clear), spine_types, is_monophonic, list(doc), measures_count, get_first_measure, get_spine_ids, '
+        'clear), spine_types, is_monophonic, list(doc), next(doc), zip(doc, doc), an abandoned iteration, measures_count, '
+        'get_first_measure, get_spine_ids, '
         'get_header_nodes, get_voices, graph to a file and to stdout.  Invariants after every step: a deep snapshot of '
         'the document (every node, token field, sub-token, link by position, measure index, bounding boxes) is '
         'unchanged; module constants and the caller\'s own argument objects are unchanged; the result (value, or '
@@ -49,7 +50,7 @@ catlists = st.one_of(st.lists(st.sampled_from(cats.ALL), max_size=4, unique=True
 def ops(draw):
     name = draw(st.sampled_from(['dumps', 'dumps', 'dumps', 'export_options', 'tokens', 'unique', 'encodings', 'unique_encodings',
                                  'frequencies', 'metacomments', 'spine_types', 'mono', 'iter', 'count', 'first', 'spine_ids',
-                                 'headers', 'voices', 'graph_file', 'graph_stdout']))
+                                 'headers', 'voices', 'graph_file', 'graph_stdout', 'next', 'zip', 'iter_partial']))
     o = {'op': name, 'shape': draw(st.sampled_from(['list', 'set', 'tuple']))}
     if name in ('dumps', 'export_options'):
         if draw(st.booleans()):
@@ -179,6 +180,13 @@ def apply(doc, o, state):
             r = kp.is_monophonic(doc)
         elif name == 'iter':
             r = list(doc)
+        elif name == 'next':
+            r = next(doc)
+        elif name == 'zip':
+            r = [list(p) for p in zip(doc, doc)]
+        elif name == 'iter_partial':
+            it = iter(doc)
+            r = [next(it, None), next(it, None)]  # an iteration that is abandoned half-way
         elif name == 'count':
             r = doc.measures_count()
         elif name == 'first':
